@@ -133,11 +133,11 @@ def build(config, tier):
                           tier="quick" if q else "thorough",
                           desc="%s::from_axis_angle == c*I + s*[a]x + (1-c)*a*a^T exactly on the lattice axis in {-1,0,1}^3, sin/cos in {-1,0,1} (Rodrigues)" % T))
     # ---- from_euler: all 24 orders
-    euler_types = [("Mat3", 32, "quick"), ("Quat", 32, "quick")]
+    euler_types = [("Mat3", 32, "quick"), ("Quat", 32, "quick4")]
     if config == "sse2":
         euler_types += [("Mat3A", 32, "thorough"), ("Mat4", 32, "thorough"), ("DMat3", 64, "thorough"), ("DMat4", 64, "thorough"), ("DQuat", 64, "thorough")]
     else:
-        euler_types = [("Mat3A", 32, "quick"), ("Quat", 32, "thorough"), ("Mat4", 32, "thorough")]
+        euler_types = [("Mat3A", 32, "thorough"), ("Quat", 32, "thorough"), ("Mat4", 32, "thorough")]
     for (T, w, tr) in euler_types:
         t = "f32" if w == 32 else "f64"
         for o in ORDERS:
@@ -156,7 +156,8 @@ def build(config, tier):
                 cmp_ = " && ".join("__verif::leq%d(l[%d], r[%d])" % (w, i, i) for i in range(nn))
                 body = mode + " let a: %s = vk::any(); let b: %s = vk::any(); let c: %s = vk::any();\n    let l = <%s>::from_euler(EulerRot::%s, a, b, c).to_cols_array(); let r = (%s).to_cols_array();\n    check!(%s, \"from_euler == product of elemental rotations\");" % (t, t, t, T, o, prod, cmp_)
             obs.append(Ob("%s_%s_euler_%s" % (pre0, T.lower(), o.lower()), PROP, body, fn="%s::from_euler(%s)" % (T, o), kind="lemma", solver="cadical",
-                          stubs=["sse", "uf_sin_cos%d" % w], cls="lattice", tier=tr,
+                          stubs=["sse", "uf_sin_cos%d" % w], cls="lattice", pin=(tr == "quick" or (tr == "quick4" and o in ("ZYX", "XYZ", "ZXZ", "ZYXEx"))),
+                          tier=("quick" if tr == "quick" or (tr == "quick4" and o in ("ZYX", "XYZ", "ZXZ", "ZYXEx")) else "thorough"),
                           desc="%s::from_euler(%s, a, b, c) == %s exactly, for every angle triple, sin/cos uninterpreted on the lattice with odd/even symmetry" % (T, o, prod)))
     if config == "sse2":
         obs.append(Ob("c09_sse2_canary_rotation_z_clockwise", PROP,
